@@ -225,7 +225,7 @@ def for_mutating_own_iterable(fi) -> List[ast.For]:
     for n in ast.walk(fi.node):
         if isinstance(n, ast.For) and isinstance(n.iter, ast.Name):
             c = n.iter.id
-            for x in ast.walk(n):
+            for x in (y for st in n.body for y in ast.walk(st)):
                 if isinstance(x, ast.Call) and isinstance(x.func, ast.Attribute) and x.func.attr in ("append", "extend", "insert", "add") and isinstance(x.func.value, ast.Name) and x.func.value.id == c:
                     out.append(n)
                     break
